@@ -302,14 +302,18 @@ def main(argv=None):
             nd_cases.setdefault(case_key(c), (c, where))
     resolved = {}
     if nd_cases and not hasattr(mod, 'explore'):
-        for ck, (c, where) in list(nd_cases.items())[:12]:
+        t_res = time.time()
+        n_hist = 0
+        for ck, (c, where) in list(nd_cases.items())[:8]:
             f1 = fresh_run(modname, seed, [c]); f2 = fresh_run(modname, seed, [c])
             if f1 and [k for k, _ in f1] == [k for k, _ in f2] and not any(k.startswith('harness:') for k, _ in f1):
                 resolved[ck] = ('clean', f1, None)
                 continue
-            # not reproducible from a clean process: replay what the worker had executed before (its chunks, in order)
-            if where is None or where[0] not in chunk_log:
+            # not reproducible from a clean process: replay what the worker had executed before (its chunks, in order);
+            # bounded: at most two such replays and about three minutes
+            if where is None or where[0] not in chunk_log or n_hist >= 2 or time.time() - t_res > 180:
                 continue
+            n_hist += 1
             wpid, wt0 = chunk_log[where[0]]
             mine = sorted((t, i) for i, (p_, t) in chunk_log.items() if p_ == wpid and t <= wt0)
             want_idx = [i for _, i in mine]
@@ -343,6 +347,8 @@ def main(argv=None):
                     by_key.setdefault('after-earlier-calls:' + k2, []).append((m2 + '\n(passes in a fresh process; fails, reproducibly, after the %d cases the worker had executed before it: the library keeps state across calls)' % hist['preceding_cases'], cc))
             continue
         nondet_any |= nd
+        if nd:
+            continue          # not reproducible in any way: never a verdict
         by_key.setdefault(k, []).append((m, c))
     os.makedirs(os.path.join(OUT, 'replays', pid), exist_ok=True)
     new_keys, known_hit = [], []
@@ -378,8 +384,10 @@ def main(argv=None):
                                          'exhaustive') if k in coverage}
     print('%s tier=%s seed=%d %s wall=%.1fs violations=%d known=%d' % (pid, tier, seed, summ, wall, len(new_keys), len(known_hit)))
     if nondet_any:
-        print('NONDETERMINISM: a failing case did not reproduce identically on re-execution (harness bug)')
-        return 2
+        print('NONDETERMINISM: %s failing case(s) did not reproduce identically on re-execution, neither in the same worker nor in fresh '
+              'processes; their failures are not reported as verdicts' % ('some' if new_keys else 'the'))
+        if not new_keys:
+            return 2
     return 1 if new_keys else 0
 
 
